@@ -289,18 +289,23 @@ def check(prop, tier, base, a):
             for idx in idxs:
                 plan = world.make_plan(run_seed_of(base, prop, idx), tier)
                 again[idx] = world.run(plan)["digest"]
-            env = dict(os.environ)
-            env["PYTHONHASHSEED"] = "12345"
-            env["VERIF_NO_REEXEC"] = "1"
-            env["VERIF_SEED"] = str(base)
-            pr = subprocess.run([sys.executable, os.path.join(VERIF, "check"), prop, "--tier", tier,
-                                 "--digests", "%d:%d" % (lo, hi)], env=env, capture_output=True, text=True, timeout=600)
-            fresh = {}
-            for line in pr.stdout.splitlines():
-                if line.startswith("DIGESTS "):
-                    fresh = {int(k): v for k, v in json.loads(line[8:]).items()}
-            bad = [i for i in idxs if not (total["digests"][i] == again[i] == fresh.get(i))]
-            selftest = {"sampled": len(idxs), "ok": not bad, "processes": "pool worker, batch parent, fresh interpreter (PYTHONHASHSEED=12345)"}
+            hashseeds = ["12345"] if tier == "quick" else ["12345", "5"]
+            bad = [i for i in idxs if total["digests"][i] != again[i]]
+            pr = None
+            for hs in hashseeds:
+                env = dict(os.environ)
+                env["PYTHONHASHSEED"] = hs
+                env["VERIF_NO_REEXEC"] = "1"
+                env["VERIF_SEED"] = str(base)
+                pr = subprocess.run([sys.executable, os.path.join(VERIF, "check"), prop, "--tier", tier,
+                                     "--digests", "%d:%d" % (lo, hi)], env=env, capture_output=True, text=True, timeout=1200)
+                fresh = {}
+                for line in pr.stdout.splitlines():
+                    if line.startswith("DIGESTS "):
+                        fresh = {int(k): v for k, v in json.loads(line[8:]).items()}
+                bad += [i for i in idxs if total["digests"][i] != fresh.get(i) and i not in bad]
+            selftest = {"sampled": len(idxs), "ok": not bad,
+                        "processes": "pool worker, batch parent, fresh interpreter(s) with PYTHONHASHSEED=" + "/".join(hashseeds)}
             if bad:
                 status = 2
                 print("HARNESS-NONDETERMINISM digests differ for run indices %s" % bad[:10])
